@@ -10,11 +10,12 @@
       in both cases PC = the return address on the stack, SP popped, memory (hence the caller's code) untouched;
     * `C18_exit`: a jump to address 0 ends halted at FF03h;
     * the console model: bytes written to port 0 in program order; other ports and reads only warn.
-  tinycpm.Memory (a byte array) and tinycpm.IO (writer / logger) are modelled by hand and tied to the real package
-  by the `cpm` correspondence (a copy of internal/tinycpm taken at check time).
+  tinycpm.Memory (a byte array) and tinycpm.IO (writer / logger) are translated from the Go source on every run
+  (Z80/Gen/CPMGlue.lean) and proved equal to the console / byte-array model used here in Props/C18Glue.lean; the whole
+  machine is compared with the real package by the `cpm` and `cpmglue` correspondences (a copy of internal/tinycpm
+  taken at check time).
 -/
 import Z80.Gen.TinyCPM
-import Z80.Gen.TinyCPMSource
 import Z80.Props.C01
 import Z80.Proofs.RunLoop
 import Z80.Proofs.Frame
@@ -378,27 +379,8 @@ theorem C18_console_fn2 (old : List Ev) (e : U8) : console (.iow 0#8 e :: old) =
   simp [console, warnings, consoleSel]
 
 
--- the Go side of the machine (IO.In / IO.Out / Memory.Get / Memory.Set): the source the hand model was written from
-
-/-- internal/tinycpm/tinycpm.go as it was when the console / memory model was written -/
-def pinnedTinycpmSource : List (String × String × String) := [
-  ("*IO.In", "func(addr uint8) uint8", "{\n\tio.warnl.Printf(\"not impl. I/O In addr=0x%02x\", addr)\n\treturn 0\n}"),
-  ("*IO.Out", "func(addr uint8, value uint8)", "{\n\tif addr != 0 {\n\t\tio.warnl.Printf(\"not impl. I/O Out addr=0x%02x value=0x%02x\", addr, value)\n\t\treturn\n\t}\n\tb := []byte{value}\n\tio.stdout.Write(b)\n}"),
-  ("*IO.SetStdout", "func(w io.Writer)", "{\n\tio.stdout = w\n}"),
-  ("*IO.SetWarnLogger", "func(l *log.Logger)", "{\n\tio.warnl = l\n}"),
-  ("*Memory.Get", "func(addr uint16) uint8", "{\n\treturn m.buf[addr]\n}"),
-  ("*Memory.LoadFile", "func(name string) error", "{\n\tprog, err := os.ReadFile(name)\n\tif err != nil {\n\t\treturn err\n\t}\n\tm.put(Start, prog...)\n\treturn nil\n}"),
-  ("*Memory.Set", "func(addr uint16, value uint8)", "{\n\tm.buf[addr] = value\n}"),
-  ("*Memory.put", "func(addr uint16, data ...uint8)", "{\n\tcopy(m.buf[int(addr):int(addr)+len(data)], data)\n}"),
-  ("New", "func() (*Memory, *IO)", "{\n\treturn NewMemory(), NewIO()\n}"),
-  ("NewIO", "func() *IO", "{\n\treturn &IO{\n\t\tstdout:\tos.Stdout,\n\t\twarnl:\tlog.New(os.Stderr, \"[WARN][IO]\", 0),\n\t}\n}"),
-  ("NewMemory", "func() *Memory", "{\n\tm := new(Memory)\n\tm.put(0x0000, bios0000...)\n\tm.put(0xfe06, biosFE06...)\n\tm.put(0xff03, biosFF03...)\n\treturn m\n}")
-]
-
-/-- the functions of tinycpm.go in the CURRENT tree are textually the ones the hand model (port 0 → writer, everything
-    else → warning, reads → 0; memory = 64 KiB byte array) was written from; the behavioural tie is the `cpm`
-    correspondence on the real package -/
-theorem C18_source_pinned : Gen.tinycpmSource = pinnedTinycpmSource := by decide
+-- (the Go side of the machine — IO.In / IO.Out / Memory.Get / Memory.Set — is tied to this model by Props/C18Glue.lean:
+--  the methods translated from internal/tinycpm on every run ARE the console / byte-array model)
 
 -- non-vacuity: the regenerated BIOS table itself satisfies `Loaded` when written into an empty memory; a string
 -- with 00h and a byte ≥ 80h
